@@ -1,3 +1,4 @@
+import Secp.Proofs.Ladder
 import Secp.Proofs.LimbGroup
 import Secp.Proofs.ScalarApiTiesTests
 import Secp.Proofs.BitsSpec
